@@ -10,6 +10,8 @@ def run(facts, tier):
         ("merge loops", H.merge_loops, 6, "merge loops fold every slot, no conditional skip"),
         ("nibble decode", H.nibble_decode, 2, "HLL_4 decoding: AUX_TOKEN -> exception lookup, otherwise raw + curMin, and nothing else"),
         ("successor locals", H.successor_locals, 1, "a member is not read between computing its successor local and storing it back"),
+        ("estimator operands", H.estimator_operands, 3, "the incremental estimator update uses the value the register decision was made on"),
+        ("probe extent", lambda fa: H.probe_extent(fa, ("hll",)), 2, "arrays handed to probing helpers were sized 1 << the lg size passed with them"),
         ("coupon codec", H.coupon_constants, 1, "pair/getLow26/getValue use one key width"),
         ("canonical chains", lambda fa: chains.obligations(fa, ["hll"]), 11, "typed update overloads follow the cross-language canonicalisation contract"),
         ("mode byte", H.mode_byte, 1, "mode byte encode/decode are inverse"),
